@@ -1258,6 +1258,11 @@ func smtApp(t *Term, an []string) string {
 		return fmt.Sprintf("((_ to_fp %s) %s)", fpParams(t.Sort), j)
 	case OUF:
 		return "(" + t.Name + " " + j + ")"
+	case OFToBV:
+		if t.Args[0].Sort.K == SInt {
+			// ring mode: the bit pattern of a ring value is an uninterpreted (injective by cancellation) function
+			return fmt.Sprintf("(ringtobits%d %s)", t.Sort.W, j)
+		}
 	}
 	n, ok := opNames[t.Op]
 	if !ok {
